@@ -7,6 +7,8 @@
 //             ["dc", <why>]         declared don't-care: not compared
 //             ["od", p_asc, p_desc] the result depends on the (unspecified) enumeration order of object members;
 //                                   p_asc / p_desc are the predictions for ascending / descending key order
+// "dev": per document, the names of the known-deviation classes the (expression, document) falls into (classification
+//       only: predictions are always the specification's).
 // "se": the expression contains a statically detectable error (unknown function, wrong arity, zero slice
 //       step); the specification does not say whether it must be reported when never evaluated, so an error
 //       is always acceptable for such a case.
@@ -52,8 +54,23 @@ static mj::Value val_wire(const Json& j) {
 
 struct Obs { bool ok = false; bool foreign = false; mj::Value v; std::string msg; };
 
+// "dev": names of the known-deviation classes (notes/C13.md) the generator put this (case, document) into.  The harness
+// only echoes them and uses them to bucket its output cap, so that a flood of mismatches of one known class can neither
+// hide another class nor an unclassified mismatch (caps: 300 unclassified, 40 per (class set, kind) per shard).
+static std::string dev_of(const mj::Value& c, int doc) {
+    const mj::Value* d = c.find("dev"); std::vector<std::string> names;
+    if (d) for (size_t k = 0; k < d->size() && k < c["ds"].size(); ++k)
+        if (doc < 0 || c["ds"][k].as_int() == doc) for (auto& n : (*d)[k].a) if (std::find(names.begin(), names.end(), n.str()) == names.end()) names.push_back(n.str());
+    std::sort(names.begin(), names.end());
+    std::string r; for (auto& n : names) { if (!r.empty()) r += ","; r += n; }
+    return r;
+}
+static std::map<std::string, long> g_bucket;
 static void fail(size_t idx, const mj::Value& c, const char* flavour, int doc, const std::string& what, const mj::Value& got) {
-    mj::Value m = hz::rec("mismatch"); m.set("idx", (int64_t)idx); m.set("flavour", flavour); m.set("doc", doc); m.set("what", what); m.set("got", got); m.set("case", c); hz::emit_mismatch(m);
+    std::string dev = dev_of(c, doc);
+    long n = ++g_bucket[dev.empty() ? std::string() : dev + "|" + what];
+    if (n > (dev.empty() ? 300 : 40)) return;
+    mj::Value m = hz::rec("mismatch"); m.set("idx", (int64_t)idx); m.set("flavour", flavour); m.set("doc", doc); m.set("what", what); m.set("dev", dev); m.set("got", got); m.set("case", c); hz::emit(m);
 }
 static mj::Value obs_json(const Obs& o) {
     mj::Value r = mj::Value::array();
